@@ -29,6 +29,7 @@ func init() {
 		spaces[p+".allelems"] = func(t string) mck.Space { return allElemSpace(v9) }
 		spaces[p+".loaded"] = func(t string) mck.Space { return loadedElemSpace(v9) }
 		spaces[p+".counts"] = func(t string) mck.Space { return countsSpace(v9, t) }
+		spaces[p+".typeinfo"] = func(t string) mck.Space { return typeInfoSpace(v9) }
 	}
 }
 
@@ -535,6 +536,89 @@ func countsSpace(v9 bool, tier string) mck.Space {
 		c.Nontrivial(fc.hash)
 		if idx%37 == 0 {
 			c.Sample(func() interface{} { return map[string]interface{}{"desc": fc.Desc, "v9": v9} })
+		}
+	}}
+}
+
+// typeInfoSpace: an exporter sends RFC 5610 "information element type" option records (scope informationElementId
+// [+ privateEnterpriseNumber]; fields informationElementDataType, informationElementSemantics,
+// informationElementName) that CLAIM another data type for an element the collector's model already defines.
+// For every element of the model: the record itself is ordinary option data and decodes as such; afterwards a
+// template using that element - from the same and from another exporter, IPFIX and NetFlow v9 - still decodes
+// by the collector's model, and the model entry is what it was.
+func typeInfoSpace(v9 bool) mck.Space {
+	flowh.InstallExtra()
+	need := map[string]uint16{"id": 303, "type": 339, "sem": 344, "name": 341, "pen": 346}
+	for _, id := range need {
+		if _, ok := ipfix.InfoModel[ipfix.ElementKey{EnterpriseNo: 0, ElementID: id}]; !ok {
+			return mck.FuncSpace{N: 1, F: func(idx uint64, c *mck.Ctx) { c.Skip() }}
+		}
+	}
+	var keys [][2]int
+	for _, k := range flowh.ModelKeys() {
+		if k[0] == 0 {
+			keys = append(keys, k)
+		}
+	}
+	fld := func(id uint16, l uint16) ref.Field { return ref.Field{ID: id, Len: l, Type: flowh.TypeOf(0, id)} }
+	dims := mck.Radix{uint64(len(keys)), 2, 2}
+	name := "ipfix"
+	if v9 {
+		name = "v9"
+	}
+	return mck.FuncSpace{N: dims.Size(), F: func(idx uint64, c *mck.Ctx) {
+		d := dims.Digits(idx)
+		x := uint16(keys[d[0]][1])
+		before := ipfix.InfoModel[ipfix.ElementKey{EnterpriseNo: 0, ElementID: x}]
+		at := flowh.TypeOf(0, x)
+		claimed := byte((int(before.Type) + 1 + d[0]%5) % 20)
+		// 1. the type-information record (always IPFIX: RFC 5610 is an IPFIX mechanism), from exporter A
+		opt := ref.Template{ID: 500, Options: true, Scope: []ref.Field{fld(need["id"], 2)}, Fields: []ref.Field{fld(need["type"], 1), fld(need["sem"], 1), fld(need["name"], 65535)}}
+		rec := ref.Record{{Raw: []byte{byte(x >> 8), byte(x)}}, {Raw: []byte{claimed}}, {Raw: []byte{0}}, {Raw: []byte("renamedByExporter")}}
+		if d[1] == 1 {
+			opt.Scope = append(opt.Scope, fld(need["pen"], 4))
+			rec = ref.Record{rec[0], {Raw: []byte{0, 0, 0, 0}}, rec[1], rec[2], rec[3]}
+		}
+		caches := flowh.NewCaches()
+		ti := &ref.Msg{Hdr: hdrFor(false, 2), Sets: []ref.Set{{Kind: ref.SetTemplates, Templates: []ref.Template{opt}}, {Kind: ref.SetData, TemplateID: 500, Records: []ref.Record{rec}}}}
+		tpls := map[uint16]ref.Template{500: opt}
+		dti := flowh.Decode(false, flowh.AddrV4mapped, ti.Encode(tpls), caches)
+		desc := func() interface{} {
+			return map[string]interface{}{"element": x, "type_in_the_model": ref.ATypeNames[at], "type_code_claimed_by_the_record": claimed, "scope_with_enterprise_number": d[1] == 1, "data_from_another_exporter": d[2] == 1, "data_protocol": name}
+		}
+		c.SetCase(desc)
+		c.Nontrivial(mck.HashStr(name, fmt.Sprint(x, d[1], d[2])))
+		if cls, msg := flowh.CompareRecords(dti.Records, ti.Expected(tpls)); cls != "" || dti.Nil {
+			c.Violation("ipfix:typeinfo:record:"+cls, "the type-information record is ordinary option data: "+msg, desc())
+			return
+		}
+		// 2. data for a template using that element
+		kind := flowh.Kind{Name: fmt.Sprint(x), F: ref.Field{ID: x, Type: at}}
+		if n := at.NaturalLen(); n > 0 {
+			kind.F.Len = uint16(n)
+		} else {
+			kind.F.Len = 6
+		}
+		t := ref.Template{ID: 400, Fields: []ref.Field{kind.F}}
+		addr := flowh.AddrV4mapped
+		if d[2] == 1 {
+			addr = flowh.AddrV6
+		}
+		m := &ref.Msg{V9: v9, Hdr: hdrFor(v9, 3), Sets: []ref.Set{{Kind: ref.SetTemplates, Templates: []ref.Template{t}}, {Kind: ref.SetData, TemplateID: 400, Records: []ref.Record{{flowh.FillValue(kind, 0, 0, 0)}, {flowh.FillValue(kind, 1, 1, 0)}}}}}
+		t2 := map[uint16]ref.Template{400: t}
+		dd := flowh.Decode(v9, addr, m.Encode(t2), caches)
+		if cls, msg := flowh.CompareRecords(dd.Records, m.Expected(t2)); cls != "" {
+			dsc := desc().(map[string]interface{})
+			dsc["got"] = flowh.DescribeRecords(dd.Records)
+			c.Violation(name+":typeinfo:decode-changed:"+cls, "after an exporter's type-information record the element is no longer decoded by the collector's model: "+msg, dsc)
+		}
+		if after := ipfix.InfoModel[ipfix.ElementKey{EnterpriseNo: 0, ElementID: x}]; after != before {
+			c.Violation(name+":typeinfo:model-changed", fmt.Sprintf("the model entry of element %d changed from %+v to %+v", x, before, after), desc())
+			ipfix.InfoModel[ipfix.ElementKey{EnterpriseNo: 0, ElementID: x}] = before // keep later cases independent
+		}
+		c.Outcome("unchanged")
+		if idx%211 == 0 {
+			c.Sample(desc)
 		}
 	}}
 }
